@@ -115,8 +115,33 @@ fn tally(e: &str, acc: &mut Acc) {
 pub fn replay(case: &str) -> Option<String> { check(case).map(|x| format!("[{}] {}", x.0, x.1)) }
 
 // ---------------------------------------------------------------- C26 (link half)
+/// objects for the link-error exploration: the debug family followed by its members that keep a symbol table when assembled without debug symbols
+fn span_objs() -> &'static Vec<ObjectFile> {
+    static S: OnceLock<Vec<ObjectFile>> = OnceLock::new();
+    S.get_or_init(|| {
+        let mut v = fam().objs.clone();
+        for (_, p) in link_family() { if let Some((o, _)) = assemble_prog(&p, false, &crate::gen::prog::Style::plain()) { if o.symbol_table().is_some() { v.push(o); } } }
+        // two table-carrying no-debug files that define the same label at different addresses
+        for (l, at) in [("DUP", 0x6800u16), ("DUP", 0x6900u16)] {
+            let p = { let mut p = vec![crate::gen::prog::st(crate::gen::prog::Nuc::External("ELSEWHERE".into()))]; p.extend(crate::gen::prog::block(at, vec![crate::gen::prog::lst(l, crate::gen::prog::Nuc::Halt)])); p };
+            if let Some((o, _)) = assemble_prog(&p, false, &crate::gen::prog::Style::plain()) { v.push(o); }
+        }
+        v
+    })
+}
+fn eval_span(expr: &str) -> Result<Result<ObjectFile, AsmErr>, String> {
+    let objs = span_objs();
+    catch(|| {
+        let mut stack: Vec<Result<ObjectFile, AsmErr>> = vec![];
+        for t in expr.split_whitespace() {
+            if t == "L" { let b = stack.pop().unwrap(); let a = stack.pop().unwrap(); stack.push(match (a, b) { (Ok(a), Ok(b)) => ObjectFile::link(a, b), (Err(e), _) | (_, Err(e)) => Err(e) }); }
+            else { stack.push(Ok(objs[t.parse::<usize>().unwrap()].clone())); }
+        }
+        stack.pop().unwrap()
+    })
+}
 fn check_link_span(expr: &str) -> Option<(String, String, bool)> {
-    match eval(expr) {
+    match eval_span(expr) {
         Err(_) | Ok(Ok(_)) => None,
         Ok(Err(e)) => {
             let kind = e.kind;
@@ -133,7 +158,7 @@ fn check_link_span(expr: &str) -> Option<(String, String, bool)> {
     }
 }
 pub fn link_error_spans(ctx: &Ctx, rep: &mut Report) {
-    let n = fam().objs.len() as u64;
+    let n = span_objs().len() as u64;
     let r = sweep(ctx, n * n + n * n * n, 64, |k, acc| {
         let e = if k < n * n { format!("{} {} L", k / n, k % n) } else { let k = k - n * n; format!("{} {} L {} L", k / (n * n), k / n % n, k % n) };
         acc.evals += 1; acc.transitions += 1;
